@@ -64,6 +64,11 @@ section
 variable {α : Type} [Add α] [Sub α] [Mul α] [Div α] [Neg α] [LT α] [LE α]
   [DecidableLT α] [DecidableLE α] [OfNat α 0] [OfNat α 1]
 
+/-- `!=` on f64 as the code uses it for `derived_mass != new_mass`: IEEE `==` is
+    `a ≤ b ∧ b ≤ a` (false as soon as one side is NaN, e.g. a derived mass `0/0`), which in a
+    linear order is plain equality -/
+def fne (a b : α) : Bool := !(decide (a ≤ b) && decide (b ≤ a))
+
 /-! ### components -/
 
 /-- `derived_mass`: `specific.map(|s| rating / s)` (never fails) -/
@@ -82,7 +87,7 @@ def compMass (k : MC α) (c : Comp α) : Res (Option α) :=
 def compSetMass (c : Comp α) (new : Option α) (se : MassSE) : Res (Comp α) :=
   match compDerived c, new with
   | some d, some nm =>
-    if neb d nm then
+    if fne d nm then
       match se with
       | .extensive =>
         match c.specific with
@@ -230,7 +235,7 @@ def locoSetMass (k : MC α) (l : Loco α) (new : Option α) (se : MassSE) : Step
       match new with
       | some nm =>
         let l0 := match d with
-          | some dm => if neb dm nm then locoExpunge l else l
+          | some dm => if fne dm nm then locoExpunge l else l
           | none => l
         locoSetMassFinish k { l0 with mass := some nm }
       | none =>
